@@ -9,11 +9,35 @@ MANIFEST = dict(
     note=common.BASE_NOTE + 'The model transformers are hand-written from the Go code; their footprint table is tied to the source by the regenerated go/ssa field-effect table (Inst_C08: every model column is played by exactly one struct field, found by its role, the depth counter being the field the C02 guard recogniser identified; every other struct field is dead on entry of every method or well behaved, C08_extra_fields_admitted; no unmodelled incoming read, every boundary operation stores every field on every path) and to the behaviour by the history correspondence; statement parser and lexer are abstract (any function of the fields the table lets them read); sync.Pool modelled as handing out any previously put instance or a new one; the currentToken field is justified by a guard lemma (cursor bound checked first), not by the SSA table.',
     design='6/C08')
 
-# the model's columns (Model/Reuse.v all_pfields / all_tfields), named after ROLES; the struct field that currently plays a
-# role comes from the regenerated table (static.json fieldfx[].roles: found by type / use, the depth counter by the C02
-# recogniser), so a renamed field is the same column and an added field is an "extra" column
-PFIELDS = ["tokens", "currentPos", "currentToken", "depth", "ctx", "cancelErr", "positions", "strict", "dialect"]
-TFIELDS = ["input", "pos", "lineStart", "lineStarts", "line", "keywords", "dialect", "logger", "configured", "loc", "Comments"]
+# the model's columns, named after ROLES: read from the Coq model itself (Model/Reuse.v: map pfield_name all_pfields /
+# map tfield_name all_tfields, evaluated by load_model_columns once the theories are built) - no field name is written
+# down here.  The struct field that currently plays a role comes from the regenerated table (static.json
+# fieldfx[].roles: found by type / use, the depth counter by the C02 recogniser; tools/gotables/roles.go, parser and
+# tokenizer alike), so a renamed field is the same column and an added field is an "extra" column
+PFIELDS, TFIELDS = [], []
+ROLE_HDR = {}      # current names of the fields playing the parser's depth / ctx roles, handed to the harness
+
+
+def load_model_columns():
+    """column (role) names of the two footprint tables, in model order, as the Coq model defines them"""
+    body = ("From Coq Require Import List String.\nFrom GV Require Import Model.Reuse.\nImport ListNotations.\n"
+            "Definition pcols := Eval vm_compute in map pfield_name all_pfields.\nDefinition tcols := Eval vm_compute in map tfield_name all_tfields.\n"
+            "Print pcols.\nPrint tcols.\n")
+    ok, out, err = common.coq_cases("c08_columns", body)
+    m = re.search(r"pcols\s*=\s*(\[.*?\])\s*:.*?tcols\s*=\s*(\[.*?\])\s*:", out, re.S) if ok else None
+    if not m:
+        raise common.StageError("model-columns", "cannot read the columns of Model/Reuse.v: " + (err or out)[-1500:])
+    PFIELDS[:] = re.findall(r'"([^"]+)"', m.group(1))
+    TFIELDS[:] = re.findall(r'"([^"]+)"', m.group(2))
+    if not PFIELDS or not TFIELDS:
+        raise common.StageError("model-columns", "empty column list: " + out[-500:])
+
+
+def set_role_header(fx):
+    roles = (fx or {}).get("parser_roles") or {}
+    ROLE_HDR.clear()
+    # the harness checks these two after EVERY call; it is told which struct fields play them today
+    ROLE_HDR.update({"depth_field": roles.get("depth", "depth"), "ctx_field": roles.get("ctx", "ctx")})
 # Go methods a model operation stands for (Model/Reuse.v pop_methods / top_methods)
 OP_METHODS = {"OParse": ["Parse", "ParseFromModelTokens"], "OParsePos": ["ParseWithPositions", "ParseFromModelTokensWithPositions"],
               "OParseCtx": ["ParseContext", "ParseContextFromModelTokens"], "ORecover": ["ParseWithRecovery"],
@@ -254,7 +278,7 @@ def run_histories(hs, inputs, timeout=3000, mem_kb=6000000):
     for attempt in range(8):
         if not rest:
             break
-        body = json.dumps({"inputs": inputs}) + "\n" + "".join(json.dumps(h) + "\n" for h in rest)
+        body = json.dumps(dict({"inputs": inputs}, **ROLE_HDR)) + "\n" + "".join(json.dumps(h) + "\n" for h in rest)
         try:
             p = subprocess.run(["bash", "-c", "ulimit -v %d; exec %s reuse" % (mem_kb, binp)], input=body, stdout=subprocess.PIPE,
                                stderr=subprocess.PIPE, text=True, timeout=timeout)
@@ -451,6 +475,8 @@ def run(tier):
                  "Props.C08.C08_stale_positions_refuted (+ put_keeps_dialect, release_keeps_config, tok_put_keeps_dialect, tok_early_return _refuted)"],
                 inst_names=["Inst_C08.parser_fieldfx_ok", "Inst_C08.tokenizer_fieldfx_ok", "Inst_C08.depth_balanced_ok"])
             common.stage_harness()
+            load_model_columns()
+            set_role_header(fx)
     except common.StageError as e:
         return common.stage_fail(rp, e)
 
@@ -556,13 +582,18 @@ def run(tier):
 def bad_cells():
     """ask Coq which (method, field) cells of the regenerated table are incompatible with the model's footprint table"""
     body = ("From Coq Require Import List String Bool.\nFrom GV Require Import Model.Reuse Gen.FieldFx.\nImport ListNotations.\n"
-            "Definition badp := Eval vm_compute in fx_bad_cells (ptable no_defects) (role_name parser_roles pfield_name) pop_methods pguard_r pguard_w true parser_fx.\n"
-            "Definition badt := Eval vm_compute in fx_bad_cells (ttable no_tdefects) (role_name tokenizer_roles tfield_name) top_methods tguard_r tguard_w false tokenizer_fx.\n"
+            "Definition badp := Eval vm_compute in fx_bad_cells (ptable no_defects) (role_name parser_roles pfield_name) pop_methods pguard_r pguard_w true parser_fields parser_fx.\n"
+            "Definition badt := Eval vm_compute in fx_bad_cells (ttable no_tdefects) (role_name tokenizer_roles tfield_name) top_methods tguard_r tguard_w false tokenizer_fields tokenizer_fx.\n"
             "Print badp.\nPrint badt.\n")
     ok, out, err = common.coq_cases("c08_badcells", body)
     if not ok:
         return ["(diagnostics unavailable: %s)" % err[-200:]]
-    return re.findall(r'\("([^"]+)"%string,\s*"([^"]+)"%string\)', out)
+    cells = []
+    for kind, name in (("Parser", "badp"), ("Tokenizer", "badt")):
+        m = re.search(name + r"\s*=\s*(\[.*?\])\s*:\s*list", out, re.S)
+        for a, b in re.findall(r'\(\s*"([^"]*)"(?:%string)?\s*,\s*"([^"]*)"(?:%string)?\s*\)', m.group(1) if m else ""):
+            cells.append("%s.%s: %s" % (kind, a, b))
+    return cells
 
 
 def targeted_search(rp, fx, rng, inputs, index):
@@ -584,6 +615,11 @@ def targeted_search(rp, fx, rng, inputs, index):
 
 def replay(path):
     d = json.load(open(path))
+    try:
+        t = next((x for x in common.stage_gotables().get("fieldfx") or [] if x["type"] == "Parser"), None)
+        set_role_header({"parser_roles": (t or {}).get("roles")})
+    except Exception:
+        pass
     h = d.get("history") or (d.get("histories") or [None])[0]
     if not h:
         print(json.dumps(d, indent=1)[:3000])
